@@ -545,6 +545,8 @@ fn build_case(stream: &str, idx: usize, seed: u64, thorough: bool, corpus: &[(St
                 dyn_generics: true,
                 generic_fn_values: r.chance(1, 2),
                 nested_patterns: true,
+                logic_rhs_shapes: true,
+                ..Default::default()
             };
             let mut rr = r.fork(5);
             let (p, feats) = crate::progen::gen_program(&mut rr, cfg);
